@@ -57,6 +57,11 @@ CHECKS.append(
      "technique": "property-based testing over event histories (enumerated to depth 2/3, Hypothesis beyond) with a transcript invariant as oracle: every answer frame written to a virtual socket must match exactly one earlier unanswered request read from it",
      "text": "Histories of 24 event kinds (good and defective requests and answers, stray CEA/DWA/DPA, node-originated requests, DWR/DPR, clock advances) on 1..3 inbound/outbound connections before and after the handshake, with basic and threading applications and randomised scheduling; the monitor is a pure function of the frames the reference parser extracts from the sockets.",
      "note": "Trusted: virtual socket transcript, reference frame parser; hop-by-hop ids unique per connection by construction."})
+CHECKS.append(
+    {"id": "C08", "engine": "E4-nodeworld", "category": "exploration", "design_ref": "DESIGN.md section 5 C08",
+     "technique": "model-based testing: exhaustive enumeration of (typed request class x removed required-AVP subset) plus Hypothesis over routing configurations, against a reference routing/validation model evaluated on the real node in simulation",
+     "text": "All 32 typed application request classes x every subset of their required scalar attributes removed (1581 cases) are sent to a running node; Hypothesis crosses class x removed subset x application id x realm x sender x 3 application layouts (incl. the same id on different peers) x handler outcome x basic/threading x interleaved DWR/DWA. The model computes the set of acceptable dispositions from the configuration; delivery must be exactly once to exactly the matching application, error answers carry the specified code, 5005 answers a Failed-AVP listing exactly the missing AVPs where the answer class provides one, base-protocol messages never reach an application.",
+     "note": "Trusted: virtual transport, reference parser, the library encoder for building typed requests (C01-C03). Validation switch left at its default (on)."})
 
 _TODO = "check not built yet in this session (planned, see DESIGN.md); not claimed until its machinery is committed"
 NOT_APPLICABLE = [{"property_id": f"C{n:02d}", "reason": _TODO} for n in range(2, 21) if f"C{n:02d}" not in {c["id"] for c in CHECKS}]
